@@ -92,10 +92,10 @@ def extract_api(mod, table):
     for r in stepm.run_api_keys(mod, items):
         K = r['K']
         n += 1
-        for (field, loc) in r.get('post_writes', ()):
+        for (field, loc, when) in r.get('post_writes', ()):
             if field.startswith('level.') and field.split('.')[1] in ('flags', 'array_depth', 'current_name') or \
                     field in ('parser.depth', 'parser.buffer_used', 'parser.current_state'):
-                post.setdefault(r['api'], set()).add((field, loc))
+                post.setdefault(r['api'], set()).add((field, loc, when))
         if r['outcomes']:
             reached += 1
             table[(K['tokname'], K['flags'], K['dz'], K['lookup'])]['api:' + r['api'].replace('binson_parser_', '')] = r['outcomes']
@@ -163,9 +163,9 @@ def run(rep, tier):
             for (api, lk) in API_FIRST:
                 w = pw.get(api)
                 rep.ob(not w, '%s:WRAPPER-STATE' % api,
-                       'C08 WRAPPER-STATE %s changes the validation state itself after its call of the token loop (%s): later tokens are checked '
-                       'against a state verify never has' % (api, ', '.join('%s at %s' % x for x in (w or []))), '',
-                       sample={'function': api, 'writes_to_validation_state_after_the_loop_call': 0})
+                       'C08 WRAPPER-STATE %s changes the validation state itself, not through the token loop (%s): tokens are passed or later '
+                       'tokens are checked in a way verify never does' % (api, ', '.join('%s at %s (%s its loop call)' % x for x in (w or []))), '',
+                       sample={'function': api, 'own_writes_to_validation_state': 0})
             rep.coverage.setdefault('extraction', {})[tag] = dict(stats, scan_modes=modes, loop_head_states=len(table))
             need(len(table) >= 100, 'C08: only %d loop-head states evaluated' % len(table))
             counts = {'E': 0, 'C': 0, 'N': 0, '?': 0}
